@@ -65,6 +65,7 @@ def convert_to_csc(
 
 def comp_edges_to_indices(
     comp_edges: pd.DataFrame,
+    n_nodes: Optional[int] = None,
 ) -> Tuple[int, jnp.ndarray, jnp.ndarray, jnp.ndarray]:
     """Generates sparse matrix indices from the table of node edges.
 
@@ -72,6 +73,9 @@ def comp_edges_to_indices(
 
     Args:
         comp_edges: Dataframe with three columns (sink, source, type).
+        n_nodes: The number of total nodes (including branchpoints). If `None`, it is
+            inferred from `comp_edges`, which is only correct if the last node has an
+            edge.
 
     Returns:
         n_nodes: The number of total nodes (including branchpoints).
@@ -81,7 +85,8 @@ def comp_edges_to_indices(
     # Build indices for diagonals.
     sources = np.asarray(comp_edges["source"].to_list())
     sinks = np.asarray(comp_edges["sink"].to_list())
-    n_nodes = np.max(sinks) + 1 if len(sinks) > 0 else 1
+    if n_nodes is None:
+        n_nodes = np.max(sinks) + 1 if len(sinks) > 0 else 1
     diagonal_inds = jnp.stack([jnp.arange(n_nodes), jnp.arange(n_nodes)])
 
     # Build indices for off-diagonals.
